@@ -88,6 +88,12 @@ func (p *c07) Cases(tier string, emit func(interface{})) {
 		}
 	}
 	emit(c07Case{Part: "when"})
+	for _, tr := range []string{"full", "mid"} {
+		emit(c07Case{Part: "sweep", Tree: tr, B: c07B(tier), Param: "pairs", Via: "steps"})
+		for _, prm := range c07Params {
+			emit(c07Case{Part: "sweep", Tree: tr, B: c07B(tier), Param: prm, Via: "twice"})
+		}
+	}
 	for _, prm := range []string{"depth", "fields", "fc.xfields"} {
 		emit(c07Case{Part: "sweep", Tree: "recur", Param: prm, Via: "constrain"})
 		emit(c07Case{Part: "sweep", Tree: "recur", Param: prm, Via: "find"})
@@ -346,7 +352,16 @@ func c07Read(env *dataEnv, target, query, via string) (got *model.Tree, gotList 
 				sel, err = root.Find(target)
 			}
 			if err == nil && sel != nil {
-				sel, err = sel.Constrain(query)
+				if via == "steps" {
+					// the parameters reach the selection one Constrain at a time
+					for _, part := range strings.Split(query, "&") {
+						if err == nil && sel != nil {
+							sel, err = sel.Constrain(part)
+						}
+					}
+				} else {
+					sel, err = sel.Constrain(query)
+				}
 			}
 		}
 		if err != nil || sel == nil {
@@ -354,6 +369,14 @@ func c07Read(env *dataEnv, target, query, via string) (got *model.Tree, gotList 
 				err = fmt.Errorf("harness: target %q not found", target)
 			}
 			return
+		}
+		if via == "twice" {
+			// the constrained selection is read once before the read that is looked at
+			if ep.kind(m) == "list" {
+				_ = sel.UpsertInto(store.ListNode(&model.List{}, ep.def(m).(*meta.List)))
+			} else {
+				_ = sel.UpsertInto(store.ContainerNode(model.NewTree()))
+			}
 		}
 		if ep.kind(m) == "list" {
 			gotList = &model.List{}
